@@ -205,6 +205,62 @@ func Gen(rt *rapid.T) Config {
 			}
 		}
 	}
+	// a third style: a crowd of goroutines waiting in the same direction on one channel (plain
+	// operations and selects mixed), then main closes the channel or serves them one by one
+	crowd := !paired && ng >= 3 && rapid.IntRange(0, 1).Draw(rt, "crowd") == 0
+	if crowd {
+		paired = true // no free-style operations in front
+		c := ch()
+		recvCrowd := rapid.Bool().Draw(rt, "crowdrecv")
+		for g := 1; g < ng; g++ {
+			var op Op
+			switch form := rapid.IntRange(0, 3).Draw(rt, "crowdform"); {
+			case form <= 1:
+				cases := []Case{{Send: !recvCrowd, Ch: c}}
+				if form == 1 {
+					cases = append(cases, Case{Send: rapid.Bool().Draw(rt, "crowdother"), Ch: ch()})
+					if rapid.Bool().Draw(rt, "crowdswap") {
+						cases[0], cases[1] = cases[1], cases[0]
+					}
+				}
+				for i := range cases {
+					if cases[i].Send {
+						cases[i].Val = nextVal()
+					}
+				}
+				op = Op{Kind: OpSelect, Cases: cases}
+			case recvCrowd && form == 2:
+				op = Op{Kind: OpRecv2, Ch: c}
+			case recvCrowd:
+				op = Op{Kind: OpRange, Ch: c, Bound: rapid.IntRange(1, 2).Draw(rt, "crowdbound")}
+			default:
+				op = Op{Kind: OpSend, Ch: c, Val: nextVal()}
+			}
+			pre[g] = append(pre[g], op)
+		}
+		for k := rapid.IntRange(1, 3).Draw(rt, "crowdyield"); k > 0; k-- {
+			pre[0] = append(pre[0], Op{Kind: OpGosched})
+		}
+		switch rapid.IntRange(0, 2).Draw(rt, "crowdend") {
+		case 0:
+			pre[0] = append(pre[0], Op{Kind: OpClose, Ch: c})
+		case 1:
+			for g := 1; g < ng; g++ {
+				if recvCrowd {
+					pre[0] = append(pre[0], Op{Kind: OpSend, Ch: c, Val: nextVal()})
+				} else {
+					pre[0] = append(pre[0], Op{Kind: OpRecv2, Ch: c})
+				}
+			}
+		default:
+			if recvCrowd {
+				pre[0] = append(pre[0], Op{Kind: OpSend, Ch: c, Val: nextVal()})
+			} else {
+				pre[0] = append(pre[0], Op{Kind: OpRecv, Ch: c})
+			}
+			pre[0] = append(pre[0], Op{Kind: OpClose, Ch: c})
+		}
+	}
 	for g := 0; g < ng; g++ {
 		script := pre[g]
 		n := rapid.IntRange(1, 4).Draw(rt, "nops")
@@ -255,7 +311,7 @@ func Gen(rt *rapid.T) Config {
 	main := cfg.Scripts[0]
 	for g := 1; g < ng; g++ {
 		pos := rapid.IntRange(0, len(main)).Draw(rt, "gopos")
-		if rapid.IntRange(0, 1).Draw(rt, "goearly") == 0 {
+		if crowd || rapid.IntRange(0, 1).Draw(rt, "goearly") == 0 {
 			pos = 0
 		}
 		if len(main) > 0 && main[len(main)-1].Kind == OpGoexit && pos == len(main) {
